@@ -4,6 +4,7 @@ use crate::model::*;
 use crate::world::{self, log, EvKind, HKind, Handle, OpTag, Res, Who};
 use rsactor::{ActorControl, ActorRef, ActorWeak, AskHandler, TellHandler, WeakActorControl, WeakAskHandler, WeakTellHandler};
 use std::future::Future;
+use std::sync::Arc;
 use std::pin::Pin;
 use std::task::{Context, Poll};
 use std::time::Duration;
@@ -21,6 +22,29 @@ pub enum SelfRef<'a> {
 }
 
 pub type BoxFut<'a, T> = Pin<Box<dyn Future<Output = T> + Send + 'a>>;
+
+/// A library future together with the handle it borrows from. The library call that creates the future
+/// is made *eagerly* (when the operation is created, not when it is first polled), so that anything an
+/// implementation does at call time - rather than at first poll - is part of the observed behaviour.
+struct Held<K, T> {
+    fut: BoxFut<'static, T>, // declared first: dropped before what it borrows from
+    _keep: Box<K>,
+}
+impl<K, T> Future for Held<K, T> {
+    type Output = T;
+    fn poll(mut self: Pin<&mut Self>, cx: &mut Context<'_>) -> Poll<T> {
+        self.fut.as_mut().poll(cx)
+    }
+}
+impl<K, T> Unpin for Held<K, T> {}
+fn held<K: Send + 'static, T: 'static>(keep: K, make: impl for<'x> FnOnce(&'x K) -> BoxFut<'x, T>) -> BoxFut<'static, T> {
+    let keep = Box::new(keep);
+    let fut = make(&keep);
+    // SAFETY: the future only borrows from `*keep`, which lives in a Box (stable address) owned by the same
+    // struct and dropped after the future (field order)
+    let fut: BoxFut<'static, T> = unsafe { std::mem::transmute::<BoxFut<'_, T>, BoxFut<'static, T>>(fut) };
+    Box::pin(Held { fut, _keep: keep })
+}
 
 pub async fn exec_script(who: Who, ops: &[Op], me: SelfRef<'_>) -> Flow {
     for (k, op) in ops.iter().enumerate() {
@@ -75,6 +99,10 @@ struct Tracked<'a, T> {
     k: u32,
     polls: u32,
     done: bool,
+    /// the invocation record, logged when the operation is polled for the first time: futures are lazy, so
+    /// that - not the creation of the future - is when the operation starts for every rule about
+    /// acceptance, ordering and deadlines. (`budget` is filled in at that moment.)
+    inv: Option<EvKind>,
 }
 
 impl<T> Future for Tracked<'_, T> {
@@ -82,6 +110,12 @@ impl<T> Future for Tracked<'_, T> {
     fn poll(mut self: Pin<&mut Self>, cx: &mut Context<'_>) -> Poll<(T, u32)> {
         let this = &mut *self;
         this.polls += 1;
+        if let Some(mut inv) = this.inv.take() {
+            if let EvKind::Inv { budget, .. } = &mut inv {
+                *budget = budget_ok();
+            }
+            log(inv);
+        }
         let prev = world::with(|w| w.cur_op.replace((this.who, this.k)));
         let r = this.fut.as_mut().poll(cx);
         world::try_with(|w| w.cur_op = prev);
@@ -104,8 +138,36 @@ impl<T> Drop for Tracked<'_, T> {
     }
 }
 
-fn slot(h: u32) -> Option<(Handle, u32)> {
-    world::with(|w| w.slots.get(&h).map(|(hd, a)| (hd.duplicate(), *a)))
+fn slot(h: u32) -> Option<(Arc<Handle>, u32)> {
+    world::with(|w| w.slots.get(&h).map(|(hd, a)| (hd.clone(), *a)))
+}
+
+/// the typed reference inside a shared handle (the caller has matched the variant already)
+fn strong(hd: &Handle) -> &ActorRef<SimActor> {
+    match hd {
+        Handle::Strong(r) => r,
+        _ => unreachable!("not a typed strong handle"),
+    }
+}
+fn tellh(hd: &Handle) -> &dyn TellHandler<Work> {
+    match hd {
+        Handle::Tell(b) => &**b,
+        _ => unreachable!("not a tell handler"),
+    }
+}
+fn askh(hd: &Handle) -> &dyn AskHandler<Work, Reply> {
+    match hd {
+        Handle::Ask(b) => &**b,
+        _ => unreachable!("not an ask handler"),
+    }
+}
+fn ctlh(hd: &Handle) -> &dyn ActorControl {
+    match hd {
+        Handle::Ctl(b) => &**b,
+        Handle::Tell(b) => b.as_control(),
+        Handle::Ask(b) => b.as_control(),
+        _ => unreachable!("not a control handle"),
+    }
 }
 
 fn erase_choice(who: Who, k: u32, n: u64) -> Option<u64> {
@@ -243,101 +305,131 @@ fn unit_res(r: rsactor::Result<()>) -> Res {
 }
 
 /// The async part of a send-family operation, already bound to its handle.
-fn send_future(who: Who, k: u32, tag: OpTag, hd: Handle, m: &Msg, us: Option<u64>) -> Option<(BoxFut<'static, Res>, String)> {
+fn send_future(who: Who, k: u32, tag: OpTag, hd: Arc<Handle>, m: &Msg, us: Option<u64>) -> Option<(BoxFut<'static, Res>, String)> {
     let msg = m.clone();
     let erase = |n: u64| erase_choice(who, k, n);
     let is_work = matches!(msg.kind, MsgKind::Work);
-    match (tag, hd) {
+    match (tag, &*hd) {
         // ------------------------------------------------------------------ tell family
         (OpTag::Tell | OpTag::TellT, Handle::Strong(r)) => {
             if is_work {
                 if let Some(c) = erase(7) {
-                    let (b, via) = erased_tell(r, c);
+                    let (b, via) = erased_tell(r.clone(), c);
                     return Some((tell_boxed(b, msg, us), via.to_string()));
                 }
             }
-            let f: BoxFut<'static, Res> = Box::pin(async move {
-                match (&msg.kind, us) {
-                    (MsgKind::Work, None) => unit_res(r.tell(Work(msg)).await),
-                    (MsgKind::Work, Some(t)) => unit_res(r.tell_with_timeout(Work(msg), dur(t)).await),
-                    (MsgKind::WorkR { .. }, None) => unit_res(r.tell(WorkR(msg)).await),
-                    (MsgKind::WorkR { .. }, Some(t)) => unit_res(r.tell_with_timeout(WorkR(msg), dur(t)).await),
-                    (MsgKind::Join { .. }, None) => unit_res(r.tell(JoinWork(msg)).await),
-                    (MsgKind::Join { .. }, Some(t)) => unit_res(r.tell_with_timeout(JoinWork(msg), dur(t)).await),
+            let f = held(hd.clone(), move |hd| {
+                let r = strong(hd);
+                match (msg.kind.clone(), us) {
+                    (MsgKind::Work, None) => map_unit(Box::pin(r.tell(Work(msg)))),
+                    (MsgKind::Work, Some(t)) => map_unit(Box::pin(r.tell_with_timeout(Work(msg), dur(t)))),
+                    (MsgKind::WorkR { .. }, None) => map_unit(Box::pin(r.tell(WorkR(msg)))),
+                    (MsgKind::WorkR { .. }, Some(t)) => map_unit(Box::pin(r.tell_with_timeout(WorkR(msg), dur(t)))),
+                    (MsgKind::Join { .. }, None) => map_unit(Box::pin(r.tell(JoinWork(msg)))),
+                    (MsgKind::Join { .. }, Some(t)) => map_unit(Box::pin(r.tell_with_timeout(JoinWork(msg), dur(t)))),
                 }
             });
             Some((f, "ref".into()))
         }
-        (OpTag::Tell | OpTag::TellT, Handle::Tell(b)) if is_work => Some((tell_boxed(b, msg, us), "slot:tellh".into())),
+        (OpTag::Tell | OpTag::TellT, Handle::Tell(_)) if is_work => {
+            let f = held(hd.clone(), move |hd| {
+                let b = tellh(hd);
+                match us {
+                    None => map_unit(b.tell(Work(msg))),
+                    Some(t) => map_unit(b.tell_with_timeout(Work(msg), dur(t))),
+                }
+            });
+            Some((f, "slot:tellh".into()))
+        }
         // ------------------------------------------------------------------ ask family
         (OpTag::Ask | OpTag::AskT, Handle::Strong(r)) => {
             if is_work {
                 if let Some(c) = erase(7) {
-                    let (b, via) = erased_ask(r, c);
+                    let (b, via) = erased_ask(r.clone(), c);
                     return Some((ask_boxed(b, msg, us), via.to_string()));
                 }
             }
-            let f: BoxFut<'static, Res> = Box::pin(async move {
-                match (&msg.kind, us) {
-                    (MsgKind::Work, None) => reply_res(r.ask(Work(msg)).await),
-                    (MsgKind::Work, Some(t)) => reply_res(r.ask_with_timeout(Work(msg), dur(t)).await),
-                    (MsgKind::WorkR { .. }, None) => match r.ask(WorkR(msg)).await {
-                        Ok(Ok(rp)) => reply_res(Ok(rp)),
-                        Ok(Err(e)) => reply_res(Ok(e.0)),
-                        Err(e) => map_err(&e),
-                    },
-                    (MsgKind::WorkR { .. }, Some(t)) => match r.ask_with_timeout(WorkR(msg), dur(t)).await {
-                        Ok(Ok(rp)) => reply_res(Ok(rp)),
-                        Ok(Err(e)) => reply_res(Ok(e.0)),
-                        Err(e) => map_err(&e),
-                    },
-                    (MsgKind::Join { .. }, _) => Res::Unsupported,
+            if matches!(msg.kind, MsgKind::Join { .. }) {
+                return Some((Box::pin(async { Res::Unsupported }), "ref".into()));
+            }
+            let f = held(hd.clone(), move |hd| {
+                let r = strong(hd);
+                match (msg.kind.clone(), us) {
+                    (MsgKind::Work, None) => map_reply(Box::pin(r.ask(Work(msg)))),
+                    (MsgKind::Work, Some(t)) => map_reply(Box::pin(r.ask_with_timeout(Work(msg), dur(t)))),
+                    (MsgKind::WorkR { .. }, None) => map_reply_r(Box::pin(r.ask(WorkR(msg)))),
+                    (MsgKind::WorkR { .. }, Some(t)) => map_reply_r(Box::pin(r.ask_with_timeout(WorkR(msg), dur(t)))),
+                    (MsgKind::Join { .. }, _) => unreachable!(),
                 }
             });
             Some((f, "ref".into()))
         }
-        (OpTag::Ask | OpTag::AskT, Handle::Ask(b)) if is_work => Some((ask_boxed(b, msg, us), "slot:askh".into())),
-        (OpTag::AskJoin, Handle::Strong(r)) => {
-            let f: BoxFut<'static, Res> = Box::pin(async move {
-                match r.ask_join(JoinWork(msg)).await {
-                    Ok(v) => Res::JoinVal(v),
-                    Err(e) => map_err(&e),
+        (OpTag::Ask | OpTag::AskT, Handle::Ask(_)) if is_work => {
+            let f = held(hd.clone(), move |hd| {
+                let b = askh(hd);
+                match us {
+                    None => map_reply(b.ask(Work(msg))),
+                    Some(t) => map_reply(b.ask_with_timeout(Work(msg), dur(t))),
                 }
+            });
+            Some((f, "slot:askh".into()))
+        }
+        (OpTag::AskJoin, Handle::Strong(_)) => {
+            let f = held(hd.clone(), move |hd| {
+                let lib = Box::pin(strong(hd).ask_join(JoinWork(msg)));
+                Box::pin(async move {
+                    match lib.await {
+                        Ok(v) => Res::JoinVal(v),
+                        Err(e) => map_err(&e),
+                    }
+                })
             });
             Some((f, "ref".into()))
         }
         // ------------------------------------------------------------------ stop
         (OpTag::Stop, Handle::Strong(r)) => {
             if let Some(c) = erase(7) {
-                let (b, via) = erased_ctl(r, c);
-                let f: BoxFut<'static, Res> = Box::pin(async move { unit_res(b.stop().await) });
+                let (b, via) = erased_ctl(r.clone(), c);
+                let f = held(b, |b| map_unit(b.stop()));
                 return Some((f, via.to_string()));
             }
-            let f: BoxFut<'static, Res> = Box::pin(async move { unit_res(r.stop().await) });
+            let f = held(hd.clone(), |hd| map_unit(Box::pin(strong(hd).stop())));
             Some((f, "ref".into()))
         }
-        (OpTag::Stop, Handle::Ctl(b)) => Some((Box::pin(async move { unit_res(b.stop().await) }), "slot:ctl".into())),
-        (OpTag::Stop, Handle::Tell(b)) => Some((Box::pin(async move { unit_res(b.as_control().stop().await) }), "slot:tellh.as_control".into())),
-        (OpTag::Stop, Handle::Ask(b)) => Some((Box::pin(async move { unit_res(b.as_control().stop().await) }), "slot:askh.as_control".into())),
+        (OpTag::Stop, Handle::Ctl(_)) => Some((held(hd.clone(), |hd| map_unit(ctlh(hd).stop())), "slot:ctl".into())),
+        (OpTag::Stop, Handle::Tell(_)) => Some((held(hd.clone(), |hd| map_unit(ctlh(hd).stop())), "slot:tellh.as_control".into())),
+        (OpTag::Stop, Handle::Ask(_)) => Some((held(hd.clone(), |hd| map_unit(ctlh(hd).stop())), "slot:askh.as_control".into())),
         _ => None,
     }
 }
 
-fn tell_boxed(b: Box<dyn TellHandler<Work>>, msg: Msg, us: Option<u64>) -> BoxFut<'static, Res> {
+fn map_unit<'x>(lib: BoxFut<'x, rsactor::Result<()>>) -> BoxFut<'x, Res> {
+    Box::pin(async move { unit_res(lib.await) })
+}
+fn map_reply<'x>(lib: BoxFut<'x, rsactor::Result<Reply>>) -> BoxFut<'x, Res> {
+    Box::pin(async move { reply_res(lib.await) })
+}
+fn map_reply_r<'x>(lib: BoxFut<'x, rsactor::Result<Result<Reply, crate::actor::ReplyErr>>>) -> BoxFut<'x, Res> {
     Box::pin(async move {
-        match us {
-            None => unit_res(b.tell(Work(msg)).await),
-            Some(t) => unit_res(b.tell_with_timeout(Work(msg), dur(t)).await),
+        match lib.await {
+            Ok(Ok(rp)) => reply_res(Ok(rp)),
+            Ok(Err(e)) => reply_res(Ok(e.0)),
+            Err(e) => map_err(&e),
         }
     })
 }
 
+fn tell_boxed(b: Box<dyn TellHandler<Work>>, msg: Msg, us: Option<u64>) -> BoxFut<'static, Res> {
+    held(b, move |b| match us {
+        None => map_unit(b.tell(Work(msg))),
+        Some(t) => map_unit(b.tell_with_timeout(Work(msg), dur(t))),
+    })
+}
+
 fn ask_boxed(b: Box<dyn AskHandler<Work, Reply>>, msg: Msg, us: Option<u64>) -> BoxFut<'static, Res> {
-    Box::pin(async move {
-        match us {
-            None => reply_res(b.ask(Work(msg)).await),
-            Some(t) => reply_res(b.ask_with_timeout(Work(msg), dur(t)).await),
-        }
+    held(b, move |b| match us {
+        None => map_reply(b.ask(Work(msg))),
+        Some(t) => map_reply(b.ask_with_timeout(Work(msg), dur(t))),
     })
 }
 
@@ -345,33 +437,60 @@ fn budget_ok() -> bool {
     tokio::task::coop::has_budget_remaining()
 }
 
-async fn do_send(who: Who, k: u32, tag: OpTag, h: u32, m: Option<&Msg>, us: Option<u64>) {
+/// Eager half of a send-family operation: logs the invocation and makes the library call that creates
+/// the future (without polling it). Returns None when there is nothing to await.
+fn prepare_send(who: Who, k: u32, tag: OpTag, h: u32, m: Option<&Msg>, us: Option<u64>) -> Option<Tracked<'static, Res>> {
     let dummy = Msg::work(0);
     let (hd, a) = match slot(h) {
         Some(x) => x,
         None => {
             log(EvKind::Inv { who, k, op: tag, a: None, mid: m.map(|m| m.id), us, via: "none".into(), budget: budget_ok() });
             log(EvKind::Ret { who, k, res: Res::NoHandle, polls: 0 });
-            return;
+            return None;
         }
     };
     let kind = hd.kind();
-    match send_future(who, k, tag, hd, m.unwrap_or(&dummy), us) {
+    // the invocation is logged before the library is entered
+    let via = planned_via(who, k, tag, &hd, m.unwrap_or(&dummy));
+    match via {
         None => {
             log(EvKind::Inv { who, k, op: tag, a: Some(a), mid: m.map(|m| m.id), us, via: kind.into(), budget: budget_ok() });
             log(EvKind::Ret { who, k, res: Res::Unsupported, polls: 0 });
+            None
         }
-        Some((fut, via)) => {
-            log(EvKind::Inv { who, k, op: tag, a: Some(a), mid: m.map(|m| m.id), us, via, budget: budget_ok() });
-            let (res, polls) = Tracked { fut, who, k, polls: 0, done: false }.await;
-            if matches!(res, Res::ErrTimeout { .. }) {
-                world::with(|w| w.probes.timeouts_fired += 1);
-            }
-            if polls > 1 && tag.is_tell() {
-                world::with(|w| w.probes.full_mailbox_waits += 1);
-            }
-            log(EvKind::Ret { who, k, res, polls });
+        Some(_) => {
+            log(EvKind::Created { who, k, op: tag, a, mid: m.map(|m| m.id) });
+            let (fut, via) = send_future(who, k, tag, hd, m.unwrap_or(&dummy), us).expect("planned_via and send_future disagree");
+            let inv = EvKind::Inv { who, k, op: tag, a: Some(a), mid: m.map(|m| m.id), us, via, budget: true };
+            Some(Tracked { fut, who, k, polls: 0, done: false, inv: Some(inv) })
         }
+    }
+}
+
+/// can this (operation, handle, message) combination be performed at all?
+fn planned_via(_who: Who, _k: u32, tag: OpTag, hd: &Handle, m: &Msg) -> Option<()> {
+    let is_work = matches!(m.kind, MsgKind::Work);
+    match (tag, hd) {
+        (OpTag::Tell | OpTag::TellT, Handle::Strong(_)) => Some(()),
+        (OpTag::Tell | OpTag::TellT, Handle::Tell(_)) if is_work => Some(()),
+        (OpTag::Ask | OpTag::AskT, Handle::Strong(_)) => Some(()),
+        (OpTag::Ask | OpTag::AskT, Handle::Ask(_)) if is_work => Some(()),
+        (OpTag::AskJoin, Handle::Strong(_)) => Some(()),
+        (OpTag::Stop, Handle::Strong(_) | Handle::Ctl(_) | Handle::Tell(_) | Handle::Ask(_)) => Some(()),
+        _ => None,
+    }
+}
+
+async fn finish_send(who: Who, k: u32, tag: OpTag, prepared: Option<Tracked<'static, Res>>) {
+    if let Some(tracked) = prepared {
+        let (res, polls) = tracked.await;
+        if matches!(res, Res::ErrTimeout { .. }) {
+            world::with(|w| w.probes.timeouts_fired += 1);
+        }
+        if polls > 1 && tag.is_tell() {
+            world::with(|w| w.probes.full_mailbox_waits += 1);
+        }
+        log(EvKind::Ret { who, k, res, polls });
     }
 }
 
@@ -384,10 +503,10 @@ fn kill_handle(who: Who, k: u32, h: u32) {
             return;
         }
     };
-    let (r, via): (Option<rsactor::Result<()>>, String) = match hd {
+    let (r, via): (Option<rsactor::Result<()>>, String) = match &*hd {
         Handle::Strong(r) => match erase_choice(who, k, 7) {
             Some(c) => {
-                let (b, via) = erased_ctl(r, c);
+                let (b, via) = erased_ctl(r.clone(), c);
                 log(EvKind::Inv { who, k, op: OpTag::Kill, a: Some(a), mid: None, us: None, via: via.into(), budget: true });
                 (Some(b.kill()), String::new())
             }
@@ -436,7 +555,7 @@ fn observe(who: Who, k: u32, tag: OpTag, h: u32) {
         let a = world::actor_of_raw(id.id);
         Res::Ident { a, raw: if a.is_some() { 0 } else { id.id }, name: id.name().to_string() }
     };
-    let res = match (tag, &hd) {
+    let res = match (tag, &*hd) {
         (OpTag::IsAlive, Handle::Strong(r)) => Res::Bool(r.is_alive()),
         (OpTag::IsAlive, Handle::Weak(w)) => Res::Bool(w.is_alive()),
         (OpTag::IsAlive, Handle::Tell(b)) => Res::Bool(b.as_control().is_alive()),
@@ -481,7 +600,8 @@ fn handle_op(who: Who, k: u32, op: &Op, me: SelfRef<'_>) {
         Op::Clone { h, to } => match slot(*h) {
             Some((hd, a)) => {
                 let strong = hd.is_strong();
-                let old = world::with(|w| w.slots.insert(*to, (hd, a)));
+                let dup = Arc::new(hd.duplicate());
+                let old = world::with(|w| w.slots.insert(*to, (dup, a)));
                 ev(HKind::Clone, *h, Some(*to), Some(a), true, strong);
                 drop(old);
             }
@@ -502,8 +622,8 @@ fn handle_op(who: Who, k: u32, op: &Op, me: SelfRef<'_>) {
         Op::Downgrade { h, to } => match slot(*h) {
             Some((hd, a)) => {
                 let choice = erase_choice(who, k, 2).unwrap_or(0);
-                let new = match hd {
-                    Handle::Strong(r) => Some(Handle::Weak(ActorRef::downgrade(&r))),
+                let new = match &*hd {
+                    Handle::Strong(r) => Some(Handle::Weak(ActorRef::downgrade(r))),
                     Handle::Tell(b) => Some(Handle::WTell(b.downgrade())),
                     Handle::Ask(b) => Some(Handle::WAsk(b.downgrade())),
                     Handle::Ctl(b) => Some(Handle::WCtl(b.downgrade())),
@@ -512,7 +632,7 @@ fn handle_op(who: Who, k: u32, op: &Op, me: SelfRef<'_>) {
                 let _ = choice;
                 match new {
                     Some(n) => {
-                        let old = world::with(|w| w.slots.insert(*to, (n, a)));
+                        let old = world::with(|w| w.slots.insert(*to, (Arc::new(n), a)));
                         ev(HKind::Downgrade, *h, Some(*to), Some(a), true, false);
                         drop(old);
                     }
@@ -523,7 +643,7 @@ fn handle_op(who: Who, k: u32, op: &Op, me: SelfRef<'_>) {
         },
         Op::Upgrade { h, to } => match slot(*h) {
             Some((hd, a)) => {
-                let new = match hd {
+                let new = match &*hd {
                     Handle::Weak(w) => w.upgrade().map(Handle::Strong),
                     Handle::WTell(b) => b.upgrade().map(Handle::Tell),
                     Handle::WAsk(b) => b.upgrade().map(Handle::Ask),
@@ -532,7 +652,7 @@ fn handle_op(who: Who, k: u32, op: &Op, me: SelfRef<'_>) {
                 };
                 match new {
                     Some(n) => {
-                        let old = world::with(|w| w.slots.insert(*to, (n, a)));
+                        let old = world::with(|w| w.slots.insert(*to, (Arc::new(n), a)));
                         ev(HKind::Upgrade, *h, Some(*to), Some(a), true, true);
                         drop(old);
                     }
@@ -544,8 +664,11 @@ fn handle_op(who: Who, k: u32, op: &Op, me: SelfRef<'_>) {
         Op::Erase { h, to, kind, by_ref } => {
             let taken = if *by_ref { slot(*h) } else { world::with(|w| w.slots.remove(h)) };
             match taken {
-                Some((hd, a)) => {
-                    let new = match (hd, kind) {
+                Some((arc, a)) => {
+                    // by reference: convert from a borrowed handle (From<&_>, i.e. a clone); by value: take the
+                    // handle out of its slot (when an operation in flight still shares it, a clone is moved instead)
+                    let owned: Handle = if *by_ref { arc.duplicate() } else { Arc::try_unwrap(arc).unwrap_or_else(|shared| shared.duplicate()) };
+                    let new = match (owned, kind) {
                         (Handle::Strong(r), EraseKind::Tell) => Some(Handle::Tell(if *by_ref { (&r).into() } else { r.into() })),
                         (Handle::Strong(r), EraseKind::Ask) => Some(Handle::Ask(if *by_ref { (&r).into() } else { r.into() })),
                         (Handle::Strong(r), EraseKind::Ctl) => Some(Handle::Ctl(if *by_ref { (&r).into() } else { r.into() })),
@@ -555,7 +678,7 @@ fn handle_op(who: Who, k: u32, op: &Op, me: SelfRef<'_>) {
                         (other, _) => {
                             // not convertible: put it back untouched when it was moved out
                             if !*by_ref {
-                                world::with(|w| w.slots.insert(*h, (other, a)));
+                                world::with(|w| w.slots.insert(*h, (Arc::new(other), a)));
                             }
                             None
                         }
@@ -563,7 +686,7 @@ fn handle_op(who: Who, k: u32, op: &Op, me: SelfRef<'_>) {
                     match new {
                         Some(n) => {
                             let strong = n.is_strong();
-                            let old = world::with(|w| w.slots.insert(*to, (n, a)));
+                            let old = world::with(|w| w.slots.insert(*to, (Arc::new(n), a)));
                             ev(HKind::Erase, *h, Some(*to), Some(a), true, strong);
                             drop(old);
                         }
@@ -575,12 +698,12 @@ fn handle_op(who: Who, k: u32, op: &Op, me: SelfRef<'_>) {
         }
         Op::AsControl { h, to } => match slot(*h) {
             Some((hd, a)) => {
-                let new = match hd {
-                    Handle::Strong(r) => Some(Handle::Ctl(ActorControl::clone_boxed(&r))),
+                let new = match &*hd {
+                    Handle::Strong(r) => Some(Handle::Ctl(ActorControl::clone_boxed(r))),
                     Handle::Tell(b) => Some(Handle::Ctl(b.as_control().clone_boxed())),
                     Handle::Ask(b) => Some(Handle::Ctl(b.as_control().clone_boxed())),
                     Handle::Ctl(b) => Some(Handle::Ctl(b.clone_boxed())),
-                    Handle::Weak(w) => Some(Handle::WCtl(WeakActorControl::clone_boxed(&w))),
+                    Handle::Weak(w) => Some(Handle::WCtl(WeakActorControl::clone_boxed(w))),
                     Handle::WTell(b) => Some(Handle::WCtl(b.as_weak_control().clone_boxed())),
                     Handle::WAsk(b) => Some(Handle::WCtl(b.as_weak_control().clone_boxed())),
                     Handle::WCtl(b) => Some(Handle::WCtl(b.clone_boxed())),
@@ -588,7 +711,7 @@ fn handle_op(who: Who, k: u32, op: &Op, me: SelfRef<'_>) {
                 match new {
                     Some(n) => {
                         let strong = n.is_strong();
-                        let old = world::with(|w| w.slots.insert(*to, (n, a)));
+                        let old = world::with(|w| w.slots.insert(*to, (Arc::new(n), a)));
                         ev(HKind::AsControl, *h, Some(*to), Some(a), true, strong);
                         drop(old);
                     }
@@ -605,7 +728,7 @@ fn handle_op(who: Who, k: u32, op: &Op, me: SelfRef<'_>) {
             };
             match (new, a) {
                 (Some(n), Some(a)) => {
-                    let old = world::with(|w| w.slots.insert(*to, (n, a)));
+                    let old = world::with(|w| w.slots.insert(*to, (Arc::new(n), a)));
                     ev(HKind::CloneSelf, u32::MAX, Some(*to), Some(a), true, true);
                     drop(old);
                 }
@@ -692,7 +815,36 @@ async fn consume_budget(n: u32) {
     }
 }
 
+/// (tag, slot, message, timeout in microseconds) of a send-family operation
+fn send_parts(op: &Op) -> Option<(OpTag, u32, Option<&Msg>, Option<u64>)> {
+    Some(match op {
+        Op::Tell { h, m } => (OpTag::Tell, *h, Some(m), None),
+        Op::TellT { h, m, ms } => (OpTag::TellT, *h, Some(m), Some(ms_to_us(*ms))),
+        Op::TellUs { h, m, us } => (OpTag::TellT, *h, Some(m), Some(*us)),
+        Op::Ask { h, m } => (OpTag::Ask, *h, Some(m), None),
+        Op::AskT { h, m, ms } => (OpTag::AskT, *h, Some(m), Some(ms_to_us(*ms))),
+        Op::AskUs { h, m, us } => (OpTag::AskT, *h, Some(m), Some(*us)),
+        Op::AskJoin { h, m } => (OpTag::AskJoin, *h, Some(m), None),
+        Op::Stop { h } => (OpTag::Stop, *h, None, None),
+        _ => return None,
+    })
+}
+
 pub fn exec<'a>(who: Who, k: u32, op: &'a Op, me: SelfRef<'a>) -> BoxFut<'a, Flow> {
+    // send-family operations: the library call is made now (eagerly), the returned future is awaited later
+    if let Some((tag, h, m, us)) = send_parts(op) {
+        let prepared = prepare_send(who, k, tag, h, m, us);
+        return Box::pin(async move {
+            finish_send(who, k, tag, prepared).await;
+            Flow::Continue
+        });
+    }
+    if let Op::Unpolled(inner) = op {
+        // make the call, never poll the future, drop it
+        let f = exec(who, k, inner, me);
+        drop(f);
+        return Box::pin(async { Flow::Continue });
+    }
     Box::pin(async move {
         match op {
             Op::Yield(n) => {
@@ -715,15 +867,8 @@ pub fn exec<'a>(who: Who, k: u32, op: &'a Op, me: SelfRef<'a>) -> BoxFut<'a, Flo
             Op::Wait(f) => world::wait(*f).await,
             Op::Signal(f) => world::signal(*f),
             Op::BurnBudget => burn_budget().await,
-            Op::Tell { h, m } => do_send(who, k, OpTag::Tell, *h, Some(m), None).await,
-            Op::TellT { h, m, ms } => do_send(who, k, OpTag::TellT, *h, Some(m), Some(ms_to_us(*ms))).await,
-            Op::TellUs { h, m, us } => do_send(who, k, OpTag::TellT, *h, Some(m), Some(*us)).await,
-            Op::AskUs { h, m, us } => do_send(who, k, OpTag::AskT, *h, Some(m), Some(*us)).await,
             Op::ConsumeBudget(n) => consume_budget(*n).await,
-            Op::Ask { h, m } => do_send(who, k, OpTag::Ask, *h, Some(m), None).await,
-            Op::AskT { h, m, ms } => do_send(who, k, OpTag::AskT, *h, Some(m), Some(ms_to_us(*ms))).await,
-            Op::AskJoin { h, m } => do_send(who, k, OpTag::AskJoin, *h, Some(m), None).await,
-            Op::Stop { h } => do_send(who, k, OpTag::Stop, *h, None, None).await,
+            Op::Tell { .. } | Op::TellT { .. } | Op::TellUs { .. } | Op::Ask { .. } | Op::AskT { .. } | Op::AskUs { .. } | Op::AskJoin { .. } | Op::Stop { .. } | Op::Unpolled(_) => unreachable!("handled eagerly above"),
             Op::Kill { h } => kill_handle(who, k, *h),
             Op::StopSelf | Op::KillSelf => {
                 let r = match me {
@@ -745,7 +890,7 @@ pub fn exec<'a>(who: Who, k: u32, op: &'a Op, me: SelfRef<'a>) -> BoxFut<'a, Flo
                             log(EvKind::Ret { who, k, res, polls: 1 });
                         } else {
                             let fut: BoxFut<'_, Res> = Box::pin(async { unit_res(r.stop().await) });
-                            let (res, polls) = Tracked { fut, who, k, polls: 0, done: false }.await;
+                            let (res, polls) = Tracked { fut, who, k, polls: 0, done: false, inv: None }.await;
                             log(EvKind::Ret { who, k, res, polls });
                         }
                     }
